@@ -118,43 +118,40 @@ _TAG_RE = re.compile(r'<block((?:\s+[\w-]+(?:\s*=\s*(?:"[^"]*"|\'[^\']*\'|[\w-]+
 _ATTR_RE = re.compile(r'([\w-]+)(?:\s*=\s*(?:"([^"]*)"|\'([^\']*)\'|([\w-]+)))?')
 
 
+_START_RE = re.compile(r'<block((?:[ \t\r\n]+[\w-]+(?:[ \t\r\n]*=[ \t\r\n]*(?:"[^"]*"|\'[^\']*\'|[\w-]+))?)*)[ \t\r\n]*>', re.S)
+_END_RE = re.compile(r'<[ \t\r\n]*/[ \t\r\n]*block[ \t\r\n]*>', re.S)
+
+
 def install_tag_parser_stub(I, prog):
-    """Stub for WinnowBlockTagParser::next: a reference scanner over the (concrete) comment
-    text.  The winnow grammar itself is not encoded (C05 is not claimed)."""
-    def nxt(I2, a, ci, dt):
-        r = a[0]
-        tp = I2.load(r)
-        src_i = field_index(prog, 'WinnowBlockTagParser', 'source')
-        cur_i = field_index(prog, 'WinnowBlockTagParser', 'cursor')
-        text = as_sstr(I2, tp.f[src_i])
-        cursor = I2.concretize(tp.f[cur_i])
+    """The tag *scanner* (WinnowBlockTagParser::next: cursor handling, search for '<' candidates,
+    offsets) is the crate's own MIR.  Only the two winnow grammar entry points it calls,
+    `parse_start_tag.parse_peek` and `parse_end_tag.parse_peek`, are replaced by a reference matcher
+    anchored at the start of the (concrete) text — the winnow grammar itself is not encoded (C05)."""
+    def parse_peek(I2, a, ci, dt):
+        text = as_sstr(I2, a[1])
         bs = text.b
         if not all(isinstance(b, int) for b in bs):
-            raise EngineError('tag-parser stub needs concrete comment text')
-        s = bytes(bs).decode('latin1')
-        m = _TAG_RE.search(s, cursor) if cursor < len(s) else None
+            raise EngineError('tag grammar stub needs concrete comment text')
+        try:
+            s = bytes(bs).decode('utf-8')
+        except UnicodeDecodeError:
+            s = bytes(bs).decode('latin1')
+        is_start = 'parse_start_tag' in ci.raw
+        m = (_START_RE if is_start else _END_RE).match(s)
         if m is None:
-            I2.store(Ref(r.cell, r.path + (cur_i,)), len(s))
-            return Ok(NONE)
-        I2.store(Ref(r.cell, r.path + (cur_i,)), m.end())
-        if m.group(0).startswith('<block'):
-            ents = []
-            seen = {}
-            for am in _ATTR_RE.finditer(m.group(1) or ''):
-                val = am.group(2) if am.group(2) is not None else (am.group(3) if am.group(3) is not None else (am.group(4) or ''))
-                seen[am.group(1)] = val
-            for k, v in seen.items():
-                ents.append(Tuple(new_string(I2, k.encode('latin1')), new_string(I2, v.encode('latin1'))))
-            variants = prog.src.enums['BlockTag']
-            vi = prog.variant_index('BlockTag', 'Start')
-            fields = variants[vi][2]
-            vals = {'tag_range': Struct('Range', (m.start(), m.end())), 'attributes': MapVal(ents, 'HashMap')}
-            return Ok(Some(Enum('BlockTag', vi, 'Start', [vals[f] for f in fields])))
-        vi = prog.variant_index('BlockTag', 'End')
-        return Ok(Some(Enum('BlockTag', vi, 'End', [m.start()])))
+            return Err(Opaque('ContextError'))
+        consumed = len(s[:m.end()].encode('utf-8'))
+        rest = SStr(bs[consumed:], text.alloc, text.off + consumed)
+        if not is_start:
+            return Ok(Tuple(rest, UNIT))
+        seen = {}
+        for am in _ATTR_RE.finditer(m.group(1) or ''):
+            val = am.group(2) if am.group(2) is not None else (am.group(3) if am.group(3) is not None else (am.group(4) or ''))
+            seen[am.group(1)] = val
+        ents = [Tuple(new_string(I2, k.encode('utf-8')), new_string(I2, v.encode('utf-8'))) for k, v in seen.items()]
+        return Ok(Tuple(rest, MapVal(ents, 'HashMap')))
 
-    I.stubs['<WinnowBlockTagParser as BlockTagParser>::next'] = nxt
-    I.stubs['BlockTagParser::next'] = nxt
+    I.stubs['Parser::parse_peek'] = parse_peek
 
 
 def parse_layout_blocks(I, prog, lay):
